@@ -74,10 +74,22 @@ func (self *Compiler) compileStmt(node ast.AnalyzedStatement) {
 			self.compileExpr(node.ReturnValue)
 		}
 
+		// Leaving the function also leaves every enclosing `try` block: drop their handlers.
+		for i := uint(0); i < self.tryDepth; i++ {
+			self.insert(newPrimitiveInstruction(Opcode_PopTryLabel), node.Span())
+		}
+
 		self.insert(newOneStringInstruction(Opcode_Jump, self.CurrFn().CleanupLabel), node.Span())
 	case ast.BreakStatementKind:
+		// Drop the handlers of the `try` blocks between this statement and the loop.
+		for i := self.currLoop().tryDepth; i < self.tryDepth; i++ {
+			self.insert(newPrimitiveInstruction(Opcode_PopTryLabel), node.Span())
+		}
 		self.insert(newOneStringInstruction(Opcode_Jump, self.currLoop().labelBreak), node.Span())
 	case ast.ContinueStatementKind:
+		for i := self.currLoop().tryDepth; i < self.tryDepth; i++ {
+			self.insert(newPrimitiveInstruction(Opcode_PopTryLabel), node.Span())
+		}
 		self.insert(newOneStringInstruction(Opcode_Jump, self.currLoop().labelContinue), node.Span())
 	case ast.LoopStatementKind:
 		node := node.(ast.AnalyzedLoopStatement)
